@@ -8,7 +8,7 @@
 (* also a test vector.  TLC checks the spec-level theorems the properties  *)
 (* rest on and prints spec -> impl vectors.                                *)
 (***************************************************************************)
-EXTENDS Find, TLC, Json, SequencesExt
+EXTENDS Algo, TLC, Json, SequencesExt
 CONSTANTS MaxTr, EmitVec, EmitMod, EmitRem
 VARIABLES vPh, vZ, vZa, vPk    \* phase; zone (spec record); zone (wire arguments); probe second
 vars == <<vPh, vZ, vZa, vPk>>
@@ -71,7 +71,10 @@ Total == (\A u \in Candidates(vZ, U) : ClockAt(vZ, u)[1]) => (ValidInstants(vZ, 
 OnlyAtTransitions ==
   LET a == ClockAt(vZ, CAddSec(U, -1)) b == ClockAt(vZ, U) IN
   (a[1] /\ b[1] /\ a[2] # b[2]) => \E i \in 1..NTr(vZ) : ToUnix(vZ.lp, vZ.tr[i].t) = U \/ Deleted(vZ.lp, CAddSec(U, -1))
-Theorems == vPh = 2 => (RoundTrip /\ LeapLaws /\ SwitchPoint /\ Bounded /\ Total /\ OnlyAtTransitions)
+\* the algorithm layer (Algo.tla: the walks shaped like the Rust) refines the declarative definitions on every scaled zone
+AlgoRefines == /\ ALeapRefines(vZ.lp, U) /\ ATypeRefines(vZ, U)
+               /\ LET cv == Civil(U) IN AFindRefines(vZ, [y |-> YInt(cv.c, cv.yic), mo |-> cv.mo, d |-> cv.d, h |-> cv.h, mi |-> cv.mi, s |-> cv.s], 7)
+Theorems == vPh = 2 => (RoundTrip /\ LeapLaws /\ SwitchPoint /\ Bounded /\ Total /\ OnlyAtTransitions /\ AlgoRefines)
 
 \* ------------------------------ vectors ---------------------------------
 OutVec(out) == {[ok |-> v] : v \in out.ok} \cup {[err |-> e] : e \in out.err}
